@@ -573,6 +573,51 @@ func c15(r *ev.Result, tier string) {
 		distinct.Add(3)
 	}
 
+	/* Every length character with a data part of exactly the matching
+	size (lines longer than an encoder writes, which the decoder accepts as
+	perl does), three contents each, alone and after a full line: the
+	decoder must return exactly the bytes the characters stand for. */
+	nLen := 0
+	for c := 0x20; c <= 0xff; c++ {
+		n := c - 0x20
+		if '`' == c {
+			n = 0
+		}
+		for ci, pat := range []string{"A", "`", "M_ !#0Zz"} {
+			line := []byte{byte(c)}
+			var want []byte
+			k := 4 * ((n + 2) / 3)
+			for i := 0; i < k; i++ {
+				ch := pat[i%len(pat)]
+				if ch > 0x60 {
+					ch = 0x40 + ch%0x20
+				}
+				line = append(line, ch)
+			}
+			for i := 0; i+4 <= k; i += 4 {
+				var q [4]byte
+				for j := range q {
+					q[j] = (line[1+i+j] - 0x20) & 0x3f
+				}
+				want = append(want, q[0]<<2|q[1]>>4, q[1]<<4|q[2]>>2, q[2]<<6|q[3])
+			}
+			want = want[:n]
+			line = append(line, '\n')
+			for _, pre := range [][]byte{nil, refEncode(contents(45, 1))} {
+				enc := append(append([]byte{}, pre...), line...)
+				orig := want
+				if nil != pre {
+					orig = append(append([]byte{}, contents(45, 1)...), want...)
+				}
+				c15CheckDecode(r, fmt.Sprintf("length-char-%d", ci), enc, orig, true)
+				nLen++
+			}
+		}
+	}
+	evals.Add(int64(nLen))
+	distinct.Add(int64(nLen))
+	r.Set("length_characters_with_matching_data", nLen)
+
 	r.Evaluations = int(evals.Load())
 	r.Distinct = int(distinct.Load())
 	r.Exhaustive = true
